@@ -3,9 +3,11 @@ import RxModel.Lemmas.ChainCompSim
   C07C, part 4: the events.  `feedEvs pre evs` replaces every effective emission of subject 0
   by the emissions of what the observers `pre` output for it.  The world with stages
   `pre ++ [T] ++ post` driven by `evs` is the `lift` of the one-stage world `[T]` driven by
-  `feedEvs pre evs` — except when the source's terminal is withheld because `post` has
-  finished early (`take 1` after `observe_on` …): then `pre` never sees the terminal, the two
-  one-stage worlds differ, but `post` ignores the difference.
+  `feedEvs pre evs`.  (Before `fix: Subject::error/complete hand the terminal to every subscriber`
+  there was an exception, the "phase B" of `MainInv`: the source's terminal was withheld when `post`
+  had finished early (`take 1` after `observe_on` …), `pre` never saw it, the two one-stage worlds
+  differed and `post` ignored the difference.  Phase B is still part of the invariant and of its
+  proofs but no step enters it any more: `MainInv.stepA` always answers with phase A.)
 -/
 set_option linter.unusedSimpArgs false
 namespace Rx.T
